@@ -18,7 +18,9 @@ T2: the REAL ResultStoreParallel code is driven under chosen schedules with no
     Independently of the model the property is judged on the real outputs:
     blocks pairwise disjoint, indices inside own blocks, shared[idx] == value
     after the syncs, some task enabled whenever one is unfinished.
-    Plus real multi-process FileSearcher runs (observable claim).
+    Plus real multi-process FileSearcher runs (observable claim) and real
+    fork-after-use runs (creator adds, THEN forks workers: they are refused
+    by ResultStoreParallel.local and must never share the creator's block).
 """
 import os
 import re
@@ -684,6 +686,31 @@ def run(chk):
         chk.sample({'kind': kind, 'bsize': b, 'programs': progs,
                     'schedule': o['schedule'][:40], 'blocks': o['blocks'],
                     'handed': o['handed']})
+    # --- a store used by its creator BEFORE the workers are forked: the
+    # late workers must not share the creator's block (real processes)
+    import multiprocessing
+    from c15 import fork_scenario, fork_after_use, judge_fork
+    mgr = multiprocessing.Manager()
+    try:
+        for n in range(3 if chk.quick else 12):
+            sc = fork_scenario(chk.rng, n)
+            try:
+                obs = fork_after_use(mgr, **sc)
+                bad = judge_fork(obs)
+            except Exception as exc:  # pylint: disable=broad-except
+                obs, bad = {}, [f"run raised {type(exc).__name__}: {exc}"]
+            chk.coverage['evaluations'] += 1
+            chk.dist('fork-after-use-runs')
+            chk.dist('late-workers-refused',
+                     sum(1 for c in obs.get('children', [])
+                         if c['status'] == 'refused'))
+            for b in bad[:1]:
+                chk.violation(
+                    f"c06-fork-after-use bsize={sc['bsize']}: "
+                    f"{b.split(':')[0][:50]}",
+                    {'violated': bad[:5], 'scenario': sc, 'observed': obs})
+    finally:
+        mgr.shutdown()
     # --- real processes
     try:
         for pb in real_mp_runs(chk)[:2]:
